@@ -241,4 +241,53 @@ theorem mod_pow_of_mod_pow_mul (x p nb : Nat) : x % 2 ^ (p + nb) % 2 ^ p = x % 2
   rw [Nat.pow_add]; exact Nat.mod_mul_right_mod x (2 ^ p) (2 ^ nb)
 
 
+theorem or_eq_add_of_lt (nb sym : Nat) (h : sym < 1024) : (nb * 1024 ||| sym) = nb * 1024 + sym := by
+  have := Nat.two_pow_add_eq_or_of_lt (i := 10) (b := sym) (by simpa using h) nb
+  simp at this
+  rw [Nat.mul_comm] at this
+  exact this.symm
+
+/-- `restore_distance_code` computes the RFC reading of the stored fields (+15), as long as
+nothing wraps in 32 bits -/
+theorem restore_eq_rfc (p nd sym nb e : Nat) (h1 : 16 + nd ≤ sym) (h2 : sym < 1024) (h3 : nb < 64)
+    (h4 : nb = rfcDistNBits p nd sym) (h5 : 1 ≤ nb) (h6 : e < 2 ^ 32)
+    (hoff : (2 + (sym - nd - 16) / 2 ^ p % 2) * 2 ^ nb < 2 ^ 32)
+    (hfit : rfcDistDecode p nd sym e + 15 < 2 ^ 32) :
+    restoreDistanceCode ((nb * 1024 ||| sym) % 65536) (e % 2 ^ 32) nd p
+      = rfcDistDecode p nd sym e + 15 := by
+  have h16 := short_codes_is_16
+  have hP : 0 < 2 ^ p := Nat.pow_pos (by decide)
+  rw [or_eq_add_of_lt nb sym h2]
+  have hpk : (nb * 1024 + sym) % 65536 = nb * 1024 + sym := Nat.mod_eq_of_lt (by omega)
+  rw [hpk, Nat.mod_eq_of_lt h6]
+  have hd : (nb * 1024 + sym) % 1024 = sym := by omega
+  have hn : (nb * 1024 + sym) / 1024 = nb := by omega
+  have hnlt : ¬ sym < 16 + nd := by omega
+  unfold restoreDistanceCode rfcDistDecode
+  simp only [h16, hd, hn, hnlt, if_false, ← h4]
+  have hM : (2:Nat) ^ 32 = 4294967296 := by decide
+  have hnd : nd < 4294967296 := by omega
+  have hbase : (sym + 2 ^ 32 - nd % 2 ^ 32 + 2 ^ 32 - 16) % 2 ^ 32 = sym - nd - 16 := by
+    rw [hM, Nat.mod_eq_of_lt hnd]; omega
+  rw [hbase]
+  obtain ⟨A, hA⟩ : ∃ A, A = (2 + (sym - nd - 16) / 2 ^ p % 2) * 2 ^ nb := ⟨_, rfl⟩
+  rw [← hA] at hoff ⊢
+  have hA4 : 4 ≤ A := by
+    have : 2 ^ 1 ≤ 2 ^ nb := Nat.pow_le_pow_right (by decide) h5
+    have h2' : 2 * 2 ^ nb ≤ (2 + (sym - nd - 16) / 2 ^ p % 2) * 2 ^ nb := Nat.mul_le_mul_right _ (by omega)
+    rw [hA]; simp at this; omega
+  have hoffs : (A % 2 ^ 32 + 2 ^ 32 - 4) % 2 ^ 32 = A - 4 := by
+    rw [hM] at *; rw [Nat.mod_eq_of_lt hoff]; omega
+  rw [hoffs]
+  -- no wrap in the final expression
+  unfold rfcDistDecode at hfit
+  simp only [hnlt, if_false, ← h4, ← hA] at hfit
+  have hle : (A - 4 + e) * 2 ^ p ≤ (A - 4 + e) * 2 ^ p + (sym - nd - 16) % 2 ^ p + nd + 1 + 15 := by omega
+  have h1' : (A - 4 + e) * 2 ^ p < 2 ^ 32 := by omega
+  have h2' : A - 4 + e < 2 ^ 32 := by
+    have : A - 4 + e ≤ (A - 4 + e) * 2 ^ p := Nat.le_mul_of_pos_right _ hP
+    omega
+  rw [Nat.mod_eq_of_lt h2', Nat.mod_eq_of_lt h1']
+  rw [Nat.mod_eq_of_lt (by omega)]
+
 end BV.Lemmas.PrefixArith
